@@ -79,6 +79,12 @@ Qed.
 Lemma one_group o g c : is_lparen o = true -> forallb plain g = true -> is_rparen c = true -> groups (o :: g ++ [c]).
 Proof. intros Ho Hg Hc. apply groups_one. apply group_intro; [exact Ho | apply inner_of_plains_all; exact Hg | exact Hc]. Qed.
 
+Lemma one_bgroup o g c : is_lparen o = true -> forallb plain g = true -> is_rparen c = true -> bgroups (o :: g ++ [c]).
+Proof. intros Ho Hg Hc. apply groups_bgroups, one_group; assumption. Qed.
+
+Lemma binner_of_plains ok l : forallb plain l = true -> binner ok l.
+Proof. intros H. apply inner_binner, inner_of_plains_all, H. Qed.
+
 Lemma one_stmt x semi : plain x = true -> is_symbol semi semicolon = true -> simple_stmt [x; semi].
 Proof.
   intros Hx Hs. exists [x], semi. split; [reflexivity|]. split; [|exact Hs].
@@ -121,7 +127,7 @@ Proof.
     [reflexivity | | reflexivity | reflexivity | | discriminate | ].
   - apply (fh_function_ret LTypeScript _ _ [_; _; _] _ [_; _; _; _]);
       [reflexivity | reflexivity | reflexivity | | reflexivity | apply type_seq_of_toks; reflexivity].
-    apply (one_group _ [_] _); reflexivity.
+    apply (one_bgroup _ [_] _); reflexivity.
   - apply (io_stmt LTypeScript _ [_; _] [] []); [apply one_stmt; reflexivity | constructor].
   - (* const g = async ( a ) => { y ; } *)
     cbn [length Nat.add].
@@ -129,7 +135,7 @@ Proof.
       [reflexivity | | reflexivity | reflexivity | | discriminate | constructor].
     + apply (fh_const_arrow_async LTypeScript _ _ _ _ [_; _; _] _);
         [reflexivity | reflexivity | reflexivity | reflexivity | reflexivity | | reflexivity].
-      apply (one_group _ [_] _); reflexivity.
+      apply (one_bgroup _ [_] _); reflexivity.
     + apply (io_stmt LTypeScript _ [_; _] [] []); [apply one_stmt; reflexivity | constructor].
 Qed.
 
@@ -151,14 +157,14 @@ Proof.
   apply (io_func LJavaScript 0 [_] [_; _; _; _; _] 1 5 _ [_; _] _ _ [] [_]);
     [reflexivity | | reflexivity | reflexivity | | discriminate | ].
   - apply (fh_function LJavaScript _ _ [_; _; _]); [reflexivity | reflexivity | reflexivity |].
-    apply (one_group _ [_] _); reflexivity.
+    apply (one_bgroup _ [_] _); reflexivity.
   - apply (io_stmt LJavaScript _ [_; _] [] []); [apply one_stmt; reflexivity | constructor].
   - cbn [length Nat.add].
     apply (io_func LJavaScript 10 [] [_; _; _; _; _; _; _; _] 1 8 _ [_; _] _ [] [] []);
       [reflexivity | | reflexivity | reflexivity | | discriminate | constructor].
     + apply (fh_const_arrow_async LJavaScript _ _ _ _ [_; _; _] _);
         [reflexivity | reflexivity | reflexivity | reflexivity | reflexivity | | reflexivity].
-      apply (one_group _ [_] _); reflexivity.
+      apply (one_bgroup _ [_] _); reflexivity.
     + apply (io_stmt LJavaScript _ [_; _] [] []); [apply one_stmt; reflexivity | constructor].
 Qed.
 
@@ -291,7 +297,7 @@ Proof.
   apply (io_func LTypeScript 0 [] [_; _; _; _; _; _; _; _; _; _; _; _; _] 1 5 _ [_; _] _ _ [] [_]);
     [reflexivity | | reflexivity | reflexivity | | discriminate | ].
   - apply (fh_function_ret LTypeScript _ _ [_; _; _] _ [_; _; _; _; _; _; _]);
-      [reflexivity | reflexivity | reflexivity | apply (one_group _ [_] _); reflexivity | reflexivity | ].
+      [reflexivity | reflexivity | reflexivity | apply (one_bgroup _ [_] _); reflexivity | reflexivity | ].
     apply (tsq_group _ [_; _; _] _ [_; _]);
       [reflexivity | apply inner_of_plains_all; reflexivity | reflexivity | apply type_seq_of_toks; reflexivity].
   - apply (io_stmt LTypeScript _ [_; _] [] []); [apply one_stmt; reflexivity | constructor].
@@ -300,7 +306,7 @@ Proof.
     apply (io_func LTypeScript 17 [] [_; _; _; _; _; _; _; _; _; _; _; _; _; _] 0 3 _ [_; _] _ [] [] []);
       [reflexivity | | reflexivity | reflexivity | | discriminate | constructor].
     + apply (fh_method_ret LTypeScript _ [_; _] _ [_; _; _; _; _; _; _; _; _; _]);
-        [reflexivity | reflexivity | apply (one_group _ [] _); reflexivity | reflexivity | ].
+        [reflexivity | reflexivity | apply (one_bgroup _ [] _); reflexivity | reflexivity | ].
       apply tsq_tok; [reflexivity | reflexivity |]. apply tsq_tok; [reflexivity | reflexivity |].
       apply (tsq_group _ [_; _; _] _ [_; _; _]);
         [reflexivity | apply inner_of_plains_all; reflexivity | reflexivity | apply type_seq_of_toks; reflexivity].
@@ -312,6 +318,65 @@ Proof.
   split; [apply (canonical_of_wf LTypeScript) | apply (canonical_of_lexical LTypeScript)];
     (discriminate || exact ts5_canonical).
 Qed.
+
+(* parameter lists with flat brace groups (bgroups):
+   function a ( { x , y } , p = { } ) { z ; }          (JavaScript)
+   const f = ( { a , b } : Opts , c ) => { z ; }        (TypeScript) *)
+Definition js6 : list token :=
+  toks [(0,s_function);(1,[97]);(2,[40]);(2,[123]);(1,[120]);(2,[44]);(1,[121]);(2,[125]);(2,[44]);(1,[112]);(3,s_eq);(2,[123]);(2,[125]);(2,[41]);
+        (2,[123]);(1,[122]);(2,[59]);(2,[125])]%Z.
+Definition js6_ds : list fdesc := [mkFd 1 0 14 14 17].
+Definition ts6 : list token :=
+  toks [(0,s_const);(1,[102]);(3,s_eq);(2,[40]);(2,[123]);(1,[97]);(2,[44]);(1,[98]);(2,[125]);(3,s_colon);(1,[79;112;116;115]);(2,[44]);(1,[99]);(2,[41]);(2,s_arrow);
+        (2,[123]);(1,[122]);(2,[59]);(2,[125])]%Z.
+Definition ts6_ds : list fdesc := [mkFd 1 0 15 15 18].
+
+Example js6_canonical : canonical_program_of LJavaScript js6 js6_ds.
+Proof.
+  unfold canonical_program_of, js6_ds.
+  let s := eval vm_compute in js6 in change js6 with s.
+  apply (io_func LJavaScript 0 [] [_; _; _; _; _; _; _; _; _; _; _; _; _; _] 1 14 _ [_; _] _ [] [] []);
+    [reflexivity | | reflexivity | reflexivity | | discriminate | constructor].
+  - apply (fh_function LJavaScript _ _ [_; _; _; _; _; _; _; _; _; _; _; _]); [reflexivity | reflexivity | reflexivity |].
+    apply bgroups_one. apply (bgroup_intro _ [_; _; _; _; _; _; _; _; _; _] _); [reflexivity | | reflexivity].
+    (* { x , y } , p = { } *)
+    apply (bi_brace _ [_; _; _] _ [_; _; _; _; _]); [reflexivity | reflexivity | reflexivity |].
+    apply bi_plain; [reflexivity|]. apply bi_plain; [reflexivity|]. apply bi_plain; [reflexivity|].
+    apply (bi_brace _ [] _ []); [reflexivity | reflexivity | reflexivity | apply bi_nil].
+  - apply (io_stmt LJavaScript _ [_; _] [] []); [apply one_stmt; reflexivity | constructor].
+Qed.
+
+Example ts6_canonical : canonical_program_of LTypeScript ts6 ts6_ds.
+Proof.
+  unfold canonical_program_of, ts6_ds.
+  let s := eval vm_compute in ts6 in change ts6 with s.
+  apply (io_func LTypeScript 0 [] [_; _; _; _; _; _; _; _; _; _; _; _; _; _; _] 1 15 _ [_; _] _ [] [] []);
+    [reflexivity | | reflexivity | reflexivity | | discriminate | constructor].
+  - apply (fh_const_arrow LTypeScript _ _ _ [_; _; _; _; _; _; _; _; _; _; _] _);
+      [reflexivity | reflexivity | reflexivity | reflexivity | | reflexivity].
+    apply bgroups_one. apply (bgroup_intro _ [_; _; _; _; _; _; _; _; _] _); [reflexivity | | reflexivity].
+    (* { a , b } : Opts , c *)
+    apply (bi_brace _ [_; _; _] _ [_; _; _; _]); [reflexivity | reflexivity | reflexivity |].
+    apply binner_of_plains. reflexivity.
+  - apply (io_stmt LTypeScript _ [_; _] [] []); [apply one_stmt; reflexivity | constructor].
+Qed.
+
+Example brace_params_hypotheses :
+  (wf_descs js6 js6_ds /\ lexically_canonical_of LJavaScript js6 js6_ds) /\
+  (wf_descs ts6 ts6_ds /\ lexically_canonical_of LTypeScript ts6 ts6_ds).
+Proof.
+  split; split.
+  - apply (canonical_of_wf LJavaScript); [discriminate | exact js6_canonical].
+  - apply (canonical_of_lexical LJavaScript); [discriminate | exact js6_canonical].
+  - apply (canonical_of_wf LTypeScript); [discriminate | exact ts6_canonical].
+  - apply (canonical_of_lexical LTypeScript); [discriminate | exact ts6_canonical].
+Qed.
+
+(* on these streams the scan equals the specification (computed) *)
+Example brace_params_scan :
+  scan_file LJavaScript js6 = expected_all js6 js6_ds js6_ds /\
+  scan_file LTypeScript ts6 = expected_all ts6 ts6_ds ts6_ds.
+Proof. vm_compute. split; reflexivity. Qed.
 
 (* the hypotheses of the end-to-end theorem hold of the examples: by the theorems ... *)
 Example ts1_hypotheses : wf_descs ts1 ds1 /\ lexically_canonical_of LTypeScript ts1 ds1.
@@ -339,5 +404,7 @@ Example examples_checked :
   wf_descs_b js1 js1_ds = true /\ lexically_canonical_of_b LJavaScript js1 js1_ds = true /\
   wf_descs_b java3 java3_ds = true /\ lexically_canonical_of_b LJava java3 java3_ds = true /\
   wf_descs_b c4 c4_ds = true /\ lexically_canonical_of_b LC c4 c4_ds = true /\
-  wf_descs_b ts5 ts5_ds = true /\ lexically_canonical_of_b LTypeScript ts5 ts5_ds = true.
+  wf_descs_b ts5 ts5_ds = true /\ lexically_canonical_of_b LTypeScript ts5 ts5_ds = true /\
+  wf_descs_b js6 js6_ds = true /\ lexically_canonical_of_b LJavaScript js6 js6_ds = true /\
+  wf_descs_b ts6 ts6_ds = true /\ lexically_canonical_of_b LTypeScript ts6 ts6_ds = true.
 Proof. vm_compute. repeat split; reflexivity. Qed.
